@@ -361,6 +361,27 @@ func (h *histRunner) apply(op Op) (fs []Finding) {
 		if drop == 1 && keep > 0 {
 			h.facts["one-stale-plus-fresh"]++
 		}
+		{
+			seen := map[[2]int64]bool{}
+			for i, p := range op.Points {
+				if route[i] < 0 {
+					continue
+				}
+				if p.T > h.now {
+					h.facts["future-point"]++
+				}
+				k := [2]int64{int64(route[i]), alignDown(p.T, h.l.Archives[route[i]].Step)}
+				if seen[k] {
+					h.facts["same-slot-dup"]++
+				}
+				seen[k] = true
+				for _, ar := range h.l.Archives {
+					if d := h.now - p.T - ar.Ret(); d >= -1 && d <= 1 {
+						h.facts["boundary-age"]++
+					}
+				}
+			}
+		}
 		h.m.UpdateBatch(op.Points, op.ID, h.now)
 		err, pm := batchWT(h.db, append([]MPoint(nil), op.Points...), op.ID, h.now)
 		if pm != "" {
